@@ -256,6 +256,36 @@ func (e *Engine) mapOrderChecks(id string) []fdResult {
 			}
 		}
 	}
+	// sequential: which of several results wins must not depend on the scheduler - the module starts no goroutine and uses
+	// no channel or select (sync.Mutex/Once are fine)
+	var conc []string
+	for _, fn := range e.moduleFunctions() {
+		for _, b := range fn.Blocks {
+			for _, in := range b.Instrs {
+				what := ""
+				switch v := in.(type) {
+				case *ssa.Go:
+					what = "starts a goroutine"
+				case *ssa.Send:
+					what = "sends on a channel"
+				case *ssa.Select:
+					what = "selects on channels"
+				case *ssa.MakeChan:
+					what = "makes a channel"
+				case *ssa.UnOp:
+					if v.Op == token.ARROW {
+						what = "receives from a channel"
+					}
+				}
+				if what != "" {
+					conc = append(conc, fmt.Sprintf("%s %s at %s", shortFn(fn), what, e.pos(in.Pos())))
+				}
+			}
+		}
+	}
+	sort.Strings(conc)
+	out = append(out, fdResult{Name: "module/sequential#1", Props: []string{"C06"}, Goal: "the module starts no goroutine and uses no channel: no result depends on scheduling",
+		OK: len(conc) == 0, Detail: strings.Join(conc, "\n")})
 	for k, d := range declared {
 		if !used[k] {
 			out = append(out, fdResult{Name: "maporder-declaration/" + d.Func + "#" + fmt.Sprint(d.N), Props: []string{"C06"}, Goal: "declaration matches a loop that needs it", OK: false,
